@@ -7,7 +7,9 @@ from lib import tlc, harness
 from lib.tlaval import to_tla
 
 LEVEL = 'model_checking'
-ALLDEV = ['staletransition', 'delaysurvives', 'zeroweightcrash', 'qeargscrash']
+# 'delaysurvives' (a delayed event_player entry posted after its mode stopped) was repaired in /repo (cc176a7, it broke
+# listed property C07); the deviation stays in the spec, disabled, as a regression: a tree that posts such an event is rejected
+ALLDEV = ['staletransition', 'zeroweightcrash', 'qeargscrash']
 U = 500            # ms per abstract time unit
 KEEP = ('foo', 'n', 'src')
 
@@ -309,7 +311,7 @@ def handmade():
 
 
 def dev_counts(jobs, traces):
-    n = dict.fromkeys(ALLDEV, 0)
+    n = dict.fromkeys(ALLDEV + ['delaysurvives'], 0)
     for job, t in zip(jobs, traces):
         c = t['cfg']
         mode = False
